@@ -1093,6 +1093,7 @@ pub fn check_c03_net(prog: &NetProgram, res: &NetResult, info: &mut RunInfo) {
                     buffer.push((now + d, NEv::Beat { m, i: i + 1 }));
                 }
                 let nflat = flat_gates(spec).len();
+                let mut dying = false;
                 for (ai, a) in spec.beats[i].acts.iter().enumerate() {
                     match a {
                         Act::Send { gate, delay_ns, .. } => {
@@ -1122,8 +1123,17 @@ pub fn check_c03_net(prog: &NetProgram, res: &NetResult, info: &mut RunInfo) {
                             info.probe("handler_panicked_after_emitting");
                             break;
                         }
+                        // a shutdown (for good) takes effect at the end of the event: what the handler emits before and
+                        // after the request is emitted, in program order
+                        Act::Shutdown { restart, .. } if *restart < 0 => {
+                            dying = true;
+                            info.probe("handler_shut_its_module_down_while_emitting");
+                        }
                         _ => {}
                     }
+                }
+                if dying {
+                    dead[m] = true;
                 }
                 for (t, ev) in buffer {
                     sched(&mut pend, instant, t, ev);
